@@ -436,6 +436,25 @@ def rf_equal(a, b):
     return (a.n * bd - b.n * ad).is_zero_mod()
 
 
+def rf_close(a, b, tol):
+    """a == b up to rounding of literals: every coefficient of the reduced difference is <= tol times the largest coefficient of
+    the operands (polynomial case only).  Used where the code folds products of decimal literals in IEEE arithmetic at compile time."""
+    if a.d is not None or b.d is not None:
+        return False
+    d = (a.n - b.n)
+    ctx = d.ctx
+    if any(d.min_exp(i) < 0 for i in ctx.rel):
+        return False
+    d = d.reduce(full=True)
+    if not d.t:
+        return True
+    ra, rb = a.n.reduce(full=True), b.n.reduce(full=True)
+    ref = max([abs(Fraction(c, ra.den)) for c in ra.t.values()] + [abs(Fraction(c, rb.den)) for c in rb.t.values()] + [Fraction(0)])
+    if ref == 0:
+        return False
+    return all(abs(Fraction(c, d.den)) <= tol * ref for c in d.t.values())
+
+
 # --------------------------------------------------------------------------------- DAG -> RF
 def _lin_key(rf):
     """Split a polynomial RF as c * primitive; return (c, key, primitive LP) or None."""
